@@ -2,6 +2,8 @@ import BrushVerif.Model.ParamOps
 import BrushVerif.Spec.ParamOps
 import BrushVerif.Model.Pattern
 import BrushVerif.Spec.Glob
+import BrushVerif.Model.ParamSubst
+import BrushVerif.Spec.ParamSubst
 /-!
 Driver for C06.
 
@@ -16,7 +18,7 @@ Response: `<impl> | <spec> | <clauses>` where impl/spec are `OK f1 … ;S v` / `
 domain guards of the `_partial` theorems the case falls outside of.
 -/
 namespace BrushVerif.Drv.C06
-open BrushVerif.Wire BrushVerif.ParamOps BrushVerif.ParamSpec
+open BrushVerif.Wire BrushVerif.ParamOps BrushVerif.ParamSpec BrushVerif.ParamSubst BrushVerif.SubstSpec
 
 def parsePatGo : Nat → Str → Option Pat
   | 0, _ => none
@@ -162,6 +164,155 @@ def handleInd (nounset : Bool) (refState : Str) (target : Param) (opToks : List 
     showOutcome target i ++ " | ".toList ++ showOutcome target s ++
       " | ".toList ++ (if cl.isEmpty then ['-'] else (String.intercalate "," cl).toList)
 
+
+/-! ## pattern substitution, case modification, value transforms
+
+`rp <ext 0|1> </|//|/#|/%> <i|v> <pattern text> <atoms>` — atoms over `L<c>` (a literal character) and `A`
+(an unquoted `&`).  Style `i`: the replacement is written inline (`\&` for a literal `&`, `\\` for a
+backslash): brush's expanded replacement holds the bare characters.  Style `v`: the replacement is
+`$r` with `r` holding bash's template text (`\&`, `\\`, `&`): brush's expanded replacement is that text.
+`cm <^|^^|,|,,> <pattern text|!>`, `tr <U|L|u>`.
+The engine is C08's model of the regex brush builds (`Re.run`: backtracking order), the reference
+matcher C08's bash matching relation. -/
+
+def parseAtoms : Str → Option (List RAtom)
+  | [] => some []
+  | 'A' :: r => (parseAtoms r).map (RAtom.amp :: ·)
+  | 'L' :: c :: r => (parseAtoms r).map (RAtom.lit c :: ·)
+  | _ => none
+
+def engineOf (ext : Bool) (ptxt : Str) : Engine :=
+  let re := BrushVerif.Pattern.toRe (BrushVerif.Pattern.parsePat ext ptxt)
+  fun t => (re.run false t).map (fun r => t.length - r.length)
+
+def isAscii (c : Char) : Bool := c.toNat < 128
+/-- Latin-1 letters with a one-to-one mapping inside Latin-1 -/
+def lat1Lower (c : Char) : Bool := 0xE0 ≤ c.toNat && c.toNat ≤ 0xFE && c.toNat != 0xF7
+def lat1Upper (c : Char) : Bool := 0xC0 ≤ c.toNat && c.toNat ≤ 0xDE && c.toNat != 0xD7
+
+/-- `char::to_uppercase` on ASCII and Latin-1 -/
+def drvUp (c : Char) : Str :=
+  if isAscii c then asciiUp c
+  else if lat1Lower c then [Char.ofNat (c.toNat - 32)]
+  else if c == 'ß' then ['S', 'S']
+  else if c == 'ÿ' then ['Ÿ']
+  else if c == 'µ' then ['Μ']
+  else [c]
+def drvLow (c : Char) : Str :=
+  if isAscii c then asciiLow c
+  else if lat1Upper c then [Char.ofNat (c.toNat + 32)]
+  else [c]
+/-- `towupper` / `towlower` (glibc, C.UTF-8) on the same range: one character to one -/
+def up1 (c : Char) : Char := if c == 'ß' then c else (drvUp c).headD c
+def low1 (c : Char) : Char := (drvLow c).headD c
+def caseCovered (c : Char) : Bool := c.toNat < 256
+
+def fieldsOf (p : Param) : List Str :=
+  match expandParam p false false with
+  | some e => if e.undefined then [] else e.fields
+  | none => []
+
+/-- an operator that maps every field: brush (`transform_expansion`) applies it to the one empty
+field of an unset parameter too; bash leaves an unset parameter alone -/
+def mapOutcome (p : Param) (nounset : Bool) (f : Str → Str) (spec : Bool) : Outcome :=
+  match expandParam p false nounset with
+  | some e => { res := .ok (if spec && e.undefined then e else mapFields e f) }
+  | none => { res := .err }
+
+def showBoth (p : Param) (i s : Outcome) (cl : List String) : Str :=
+  showOutcome p i ++ " | ".toList ++ showOutcome p s ++ " | ".toList ++
+    (if cl.isEmpty then ['-'] else (String.intercalate "," cl).toList)
+
+def matchKind? (o : Str) : Option MatchKind :=
+  if o = ['/'] then some .first else if o = ['/', '/'] then some .all
+  else if o = ['/', '#'] then some .atStart else if o = ['/', '%'] then some .atEnd else none
+
+def patCovered (ext : Bool) (ptxt : Str) : Option (BrushVerif.Pattern.Pat × BrushVerif.Pattern.Pat) :=
+  match BrushVerif.Glob.specParse ext ptxt with
+  | none => none
+  | some q =>
+    let bp := BrushVerif.Pattern.parsePat ext ptxt
+    if bp.backslashAlnum || bp.setOp || bp.caretFirst then none else some (q, bp)
+
+def handleRp (p : Param) (nounset ext : Bool) (k : MatchKind) (inline : Bool) (ptxt : Str) (r : List RAtom) : Str :=
+  match patCovered ext ptxt with
+  | none => "uncovered".toList
+  | some (q, bp) =>
+    let tpl := brushTpl inline r
+    let e := engineOf ext ptxt
+    let mS := BrushVerif.Glob.matchB false q
+    let i := mapOutcome p nounset (patSub e tpl k) false
+    let s := mapOutcome p nounset (specReplace mS (specRep r) k) true
+    let vals := fieldsOf p
+    let cl : List String :=
+      (if bp.hasBang then ["extglob_negation_not_complement"] else []) ++
+      (if mS [] then ["replace_empty_match_differs"] else []) ++
+      (if vals.all (agreeOn e mS) then [] else ["replace_alternation_leftmost_first"]) ++
+      (if r.any (fun a => a == .amp) || (!inline && r.any (fun a => a == .lit '&' || a == .lit '\\'))
+        then ["replace_ampersand_not_matched_text"] else [])
+    showBoth p i s cl
+
+def handleCm (p : Param) (nounset : Bool) (form : Str) (ptxt : Option Str) : Str :=
+  let upper := form.head? == some '^'
+  let all := form.length == 2
+  let vals := fieldsOf p
+  if !(vals.all (·.all caseCovered)) then "uncovered".toList else
+  let f := if upper then drvUp else drvLow
+  let f1 := if upper then up1 else low1
+  let multi : List String :=
+    if vals.any (·.any (fun c => (f c).length != 1)) then ["casemod_multichar_case_mapping"] else []
+  match ptxt with
+  | none =>
+    let i := mapOutcome p nounset (if all then caseAll f none else caseFirst f (fun _ => true)) false
+    let s := mapOutcome p nounset (if all then specCaseAll f1 none else specCaseFirst f1 none) true
+    showBoth p i s multi
+  | some pt =>
+    match patCovered false pt with
+    | none => "uncovered".toList
+    | some (q, _) =>
+      let e := engineOf false pt
+      let mS := BrushVerif.Glob.matchB false q
+      let mI := BrushVerif.Pattern.exactlyMatches false false pt
+      -- an empty pattern is "no pattern" on both sides
+      let i := mapOutcome p nounset
+        (if all then caseAll f (if pt.isEmpty then none else some e)
+         else caseFirst f (fun c => pt.isEmpty || mI [c])) false
+      let s := mapOutcome p nounset
+        (if all then specCaseAll f1 (if pt.isEmpty then none else some mS)
+         else specCaseFirst f1 (if pt.isEmpty then none else some mS)) true
+      let cl := multi ++
+        (if all && !pt.isEmpty && !(vals.all (singleOn e mS)) then ["casemod_pattern_matches_substrings"] else [])
+      showBoth p i s cl
+
+def handleTr (p : Param) (nounset : Bool) (t : Str) : Str :=
+  let vals := fieldsOf p
+  if !(vals.all (·.all caseCovered)) then "uncovered".toList else
+  let multi (f : Char → Str) : List String :=
+    if vals.any (·.any (fun c => (f c).length != 1)) then ["casemod_multichar_case_mapping"] else []
+  if t = ['U'] then
+    showBoth p (mapOutcome p nounset (mapCase drvUp) false) (mapOutcome p nounset (specCaseAll up1 none) true) (multi drvUp)
+  else if t = ['L'] then
+    showBoth p (mapOutcome p nounset (mapCase drvLow) false) (mapOutcome p nounset (specCaseAll low1 none) true) (multi drvLow)
+  else if t = ['u'] then
+    let later (s : Str) : Bool := (initialCaps drvUp s) != (match s with | [] => [] | c :: r => drvUp c ++ r)
+    showBoth p (mapOutcome p nounset (initialCaps drvUp) false) (mapOutcome p nounset (specCapitalize up1) true)
+      ((if vals.any later then ["at_u_capitalizes_every_word"] else []) ++ multi drvUp)
+  else "bad-op".toList
+
+def handleSubst (p : Param) (nounset : Bool) (opToks : List Str) : Option Str :=
+  match opToks with
+  | [w, ext, kd, st, pt, atm] =>
+    if w = "rp".toList then
+      match matchKind? kd, parseAtoms (unesc atm) with
+      | some k, some r => some (handleRp p nounset (ext = ['1']) k (st = ['i']) (unesc pt) r)
+      | _, _ => some "bad-op".toList
+    else none
+  | [w, form, pt] =>
+    if w = "cm".toList then some (handleCm p nounset form (if pt = ['!'] then none else some (unesc pt)))
+    else none
+  | [w, t] => if w = "tr".toList then some (handleTr p nounset t) else none
+  | _ => none
+
 def handle (toks : List Str) : Str :=
   match toks with
   | nu :: ind :: rs :: rest =>
@@ -177,12 +328,16 @@ where
     match parseParam rest with
     | none => "bad-param".toList
     | some (p, [w, o, l]) =>
-      if w = "rmx".toList then
+      if w = "cm".toList then (handleSubst p (nu = ['1']) [w, o, l]).getD "bad-op".toList
+      else if w = "rmx".toList then
         match rmKind? o with
         | some k => handleRmx p (nu = ['1']) k (unesc l)
         | none => "bad-op".toList
       else handleStd p (nu = ['1']) [w, o, l]
-    | some (p, opToks) => handleStd p (nu = ['1']) opToks
+    | some (p, opToks) =>
+      match handleSubst p (nu = ['1']) opToks with
+      | some r => r
+      | none => handleStd p (nu = ['1']) opToks
   handleStd (p : Param) (nounset : Bool) (opToks : List Str) : Str :=
       match parseOp opToks with
       | none => "bad-op".toList
